@@ -356,3 +356,12 @@ Proof.
     + rewrite last_rev. exact Hh.
     + now apply nodd_rev.
 Qed.
+
+Lemma pct_sets_exact b :
+  (should_percent_encode urlencode_chain b = false <-> is_unreserved b || (b =? 47) = true) /\
+  (is_alnum b = true -> should_percent_encode urlencode_strict_chain b = false) /\
+  (should_percent_encode urlencode_strict_chain b = false -> is_unreserved b || false = true).
+Proof.
+  split; [split; [apply urlencode_unencoded | apply urlencode_keeps]|].
+  split; [apply urlencode_strict_keeps | apply urlencode_strict_unencoded].
+Qed.
